@@ -22,8 +22,9 @@ The final handler of the harness answers 299 with body "inner"; between two midd
 that only records what it finds in the request context.
 
 Sessions (Session.lean), multi-record cases:
-  `reset` | `mw op= rm= rs= am= sk= nh=<handlers that exist>`  the one value RequireBearerToken(verifier, opts)
-  | `wrap hd=<j>`  the next wrapper mw(h_j) (numbered in creation order)
+  `reset` | `mw op= rm= rs= am= sk= nh=<handlers that exist>`  a value RequireBearerToken(verifier, opts) (several `mw`
+    records: several values side by side, numbered from 0; nh is read from the first)
+  | `wrap hd=<j> mv=<v>`  the next wrapper mw_v(h_j) (numbered in creation order; mv defaults to 0)
   | `sreq w=<wrapper> g=<group> at=<entry ns> cx=<ns at which the request's context is cancelled | -> h= ve= … now=`
     one request through wrapper w; the option keys repeat the `mw` record and are NOT read (the value's are used);
     `me= pa= dc=` (method, path and query, decoy headers) are not read either: the model's request has no such
@@ -299,7 +300,7 @@ def selfCheck (m : Obs) : Option String :=
 
 /-- Driver state of a case: the middleware value of the `mw` record (if any) and the number of handlers. -/
 structure DState where
-  sess : Option (Sess String) := none
+  world : World String := { vals := [], wrappers := [] }
   nh : Nat := 0
 
 def SClause.text (impl : String) : SClause → String
@@ -316,17 +317,16 @@ def parseSObs (impl : String) : Option SObs := do
   return { obs := o, hr := hr }
 
 def stepSreq (st : DState) (toks : List String) (impl : String) : Proto.Verdict :=
-  match st.sess with
-  | none => { model := "bad-op" }
-  | some s =>
+    let wd := st.world
     let parsed : Option (Nat × Req) := do
       let w ← (← kv toks "w").toNat?
-      let made ← s.wrappers[w]?
+      let (v, made) ← wd.wrappers[w]?
+      let opts ← wd.vals[v]?
       let at_ ← (← kv toks "at").toInt?
       let h ← (← kv toks "h") |> unxList
       let sc ← parseScript toks "" at_
       let sc := sc.withCancel at_ ((kv toks "cx").bind (·.toInt?))
-      return (made, Req.ofSession s.opts (h.headD "").toList sc)
+      return (made, Req.ofSession opts (h.headD "").toList sc)
     match parsed with
     | none => { model := "bad-op" }
     | some (made, r) =>
@@ -357,14 +357,17 @@ def engine : Engine DState where
         let nh ← (← kv rest "nh").toNat?
         return (if op == "n" then none else some { rm := rm, scopes := rs, allowMissing := am == "1", skew := sk }, nh)
       match parsed with
-      | some (opts, nh) => ({ sess := some { opts := opts, wrappers := [] }, nh := nh }, { model := "ok" })
+      | some (opts, nh) =>
+        ({ world := (st.world.step (α := Tag) (.make opts)).1, nh := if st.world.vals.isEmpty then nh else st.nh }, { model := "ok" })
       | none => (st, { model := "bad-op" })
     | "wrap" :: rest =>
-      match st.sess, (kv rest "hd").bind (·.toNat?) with
-      | some s, some j =>
-        if j < st.nh then ({ st with sess := some (s.step (σ := String) (α := Tag) (.wrap j)).1 }, { model := "ok" })
+      let v := ((kv rest "mv").bind (·.toNat?)).getD 0
+      match (kv rest "hd").bind (·.toNat?) with
+      | some j =>
+        if j < st.nh ∧ v < st.world.vals.length then
+          ({ st with world := (st.world.step (α := Tag) (.wrap v j)).1 }, { model := "ok" })
         else (st, { model := "bad-op" })
-      | _, _ => (st, { model := "bad-op" })
+      | none => (st, { model := "bad-op" })
     | "sreq" :: rest => (st, stepSreq st rest impl)
     | "req" :: rest =>
       match parseReq rest with
